@@ -50,7 +50,7 @@ FOOT = struct.Struct("QQf")
 
 
 def budget(tier):
-    return {"cases": 16 * 60 if tier == "quick" else 16 * 1500}
+    return {"cases": 16 * 60 if tier == "quick" else 16 * 600}
 
 
 def strategy(tier):
